@@ -140,6 +140,76 @@ def derived_paths_family(ctx, rng, n, cap):
     return items
 
 
+def ordering_groups_family(ctx, rng, n, cap):
+    """Ordering groups as build-file generators emit them (CMake's cmake_object_order_depends_target_*): phony statements whose
+    inputs - often order-only ones only - are generated headers or further groups, nested one to three levels deep, and
+    consumers that name only the top group.  Every level is a pass-through: the consumer may start only when the generators at
+    the bottom have finished, also when the target asked for reaches them through the groups alone, also after a first build when
+    only a generator's source changed."""
+    import copy
+    from ..simlib import St
+    items = []
+    for k in range(n):
+        srcs, stmts = {}, []
+        ngen = rng.randint(1, 3)
+        gens = []
+        for i in range(ngen):
+            srcs["gen%d.in" % i] = "// generator input %d\n" % i
+            g_ = St("gen%d" % i, ["inc/gen%d.h" % i], ins=["gen%d.in" % i])
+            if rng.random() < 0.3:
+                g_["restat"] = True
+            stmts.append(g_)
+            gens.append(g_["outs"][0])
+        level = gens
+        cover = {h: {h} for h in gens}
+        depth = rng.randint(1, 3)
+        for lv in range(depth):
+            nxt = []
+            for j in range(rng.randint(1, 2)):
+                members = rng.sample(level, rng.randint(1, len(level)))
+                grp = St("grp%d_%d" % (lv, j), ["grp%d_%d" % (lv, j)], kind="phony")
+                kind = rng.choice(("oins", "oins", "oins", "ins", "iins"))
+                grp[kind] = members
+                if kind != "oins" and rng.random() < 0.3 and len(level) > len(members):
+                    grp["oins"] = [x for x in level if x not in members][:1]
+                stmts.append(grp)
+                nxt.append(grp["outs"][0])
+                cover[grp["outs"][0]] = set().union(*[cover[m_] for m_ in grp["ins"] + grp["iins"] + grp["oins"]])
+            level = nxt
+        ncons = rng.randint(1, 3)
+        cons = []
+        for i in range(ncons):
+            # the consumer names one or more top-level groups and includes only headers those groups stand for
+            named = rng.sample(level, rng.randint(1, len(level)))
+            covered = sorted(set().union(*[cover[g2] for g2 in named]))
+            inc = rng.sample(covered, rng.randint(1, len(covered)))
+            srcs["app%d.c" % i] = "".join("#include %s\n" % h for h in inc) + "// consumer %d\n" % i
+            c_ = St("app%d" % i, ["o/app%d.o" % i], ins=["app%d.c" % i])
+            c_[rng.choice(("oins", "oins", "iins"))] = named
+            deps = rng.choice(("none", "gcc", "depfile"))
+            if deps != "none":
+                c_["deps"], c_["depfile"] = deps, c_["outs"][0] + ".d"
+            stmts.append(c_)
+            cons.append(c_["outs"][0])
+        if rng.random() < 0.5:
+            stmts.append(St("link", ["prog"], ins=list(cons)))
+        rng.shuffle(stmts)
+        sc = {"id": "C04-%d-og-%d" % (ctx.seed, k), "sources": srcs, "stmts": stmts, "pools": {}, "defaults": []}
+        steps, scs = [], []
+        if rng.random() < 0.5:
+            steps.append({"op": "build", "targets": [], "j": 2, "k": 1, "sched": {"mode": "prng", "seed": 1}})
+            scs.append(copy.deepcopy(sc))
+            for p_ in rng.sample(sorted(p for p in srcs if p.startswith("gen")), rng.randint(1, ngen)) + ([rng.choice(sorted(p for p in srcs if p.startswith("app")))] if rng.random() < 0.5 else []):
+                srcs[p_] += "// e%d\n" % rng.randint(0, 10 ** 6)
+                steps.append({"op": "write", "path": p_, "content": srcs[p_]})
+                scs.append(copy.deepcopy(sc))
+        tg = rng.choice(([], [], [rng.choice(cons)], list(cons)))
+        steps.append({"op": "build", "targets": tg, "j": rng.choice((1, 2, 3, 8)), "k": 1, "sched": {"mode": "all", "cap": cap, "keep_world": True}})
+        scs.append(copy.deepcopy(sc))
+        items.append((simlib.scenario_json(sc, steps), {"scs": scs, "explore_step": len(steps) - 1}))
+    return items
+
+
 def run(ctx):
     quick = ctx.tier == "quick"
     rng = random.Random(ctx.seed * 31337 + 4)
@@ -159,6 +229,7 @@ def run(ctx):
                                    feat=dict(order_only=0.5, deps=0.5, phony=0.2, restat=0.2, chain=0.6))
     items += implicit_dd_family(ctx, rng, 250 if quick else 2500, 80 if quick else 200)
     items += derived_paths_family(ctx, rng, 250 if quick else 2500, 40 if quick else 100)
+    items += ordering_groups_family(ctx, rng, 300 if quick else 3000, 60 if quick else 150)
     sched.run_explore(ctx, "C04", items)
     # "its response file holds the declared content" on the real disk: a longer file may already be at that path (kept after a
     # failed command, kept by -d keeprsp, stale), the declared content may be empty
